@@ -232,12 +232,16 @@ def run_c44(r, shared, plan):
     except Exception as ex:
         return {"construct_error": f"{type(ex).__name__}: {ex}"}
     recs = []
-    if plan == "seq":
+    if plan == "seq" or plan[0] == "seq":
         sched = [(0, 200, 1100), (1, 1200, 2100), (0, 2200, 3100)]
         conn = [(0, 205, 1100), (1, 1205, 2100), (0, 2205, 3100)]
-    else:
+    elif plan == "interleaved":
         sched = [(0, 200, 1500), (1, 215, 1500), (0, 240, 1500), (1, 262, 1500)]
         conn = [(0, 221, 1500), (1, 223, 1500)]
+    else:                       # ("inter", (d1, d2, d3), (c0, c1)): B, A, B subscribe d ticks after A
+        _, (d1, d2, d3), (c0, c1) = plan
+        sched = [(0, 200, 1500), (1, 200 + d1, 1500), (0, 200 + d2, 1500), (1, 200 + d3, 1500)]
+        conn = [(0, 200 + c0, 1500), (1, 200 + c1, 1500)]
     for (w, at, until) in sched:
         rec = Rec(e.s, False)
         rec.which = w
@@ -406,6 +410,7 @@ def recipes():
     add("single", lambda e: ops.single(), src="single")
     add("single", lambda e: ops.single(lambda x: x == 3), label="pred")
     add("single_or_default", lambda e: ops.single_or_default(lambda x: x > 7, 0))
+    add("single_or_default_async", lambda e: ops.single_or_default_async(True, 0), src="empty")
     add("skip", lambda e: ops.skip(2))
     add("skip_last", lambda e: ops.skip_last(2))
     add("skip_last_with_time", lambda e: ops.skip_last_with_time(15, scheduler=e.s))
@@ -554,3 +559,184 @@ def public_operator_names():
         if not n.startswith("_") and inspect.isfunction(f) and f.__module__ == "reactivex.operators":
             out.setdefault(f.__name__, []).append(n)
     return out
+
+
+# --------------------------------------------------------------------------- generated pipelines
+# single-source recipes whose output can feed any other stage (errors raised by a callback on an
+# unexpected element type are deterministic notifications, so every composition is a valid case)
+STAGE_OK = {
+    "ops.map", "ops.map_indexed", "ops.filter", "ops.filter_indexed", "ops.scan", "ops.skip", "ops.take",
+    "ops.skip_last", "ops.take_last", "ops.distinct", "ops.distinct_until_changed", "ops.pairwise",
+    "ops.delay", "ops.debounce", "ops.start_with", "ops.take_while", "ops.take_while_indexed",
+    "ops.skip_while", "ops.skip_while_indexed", "ops.zip_with_iterable", "ops.repeat", "ops.retry",
+    "ops.catch", "ops.concat", "ops.merge", "ops.do_action", "ops.default_if_empty", "ops.slice",
+    "ops.sample", "ops.throttle_first", "ops.delay_subscription", "ops.buffer_with_count", "ops.to_iterable",
+    "ops.reduce", "ops.count", "ops.sum", "ops.min", "ops.max", "ops.first", "ops.last", "ops.some",
+    "ops.all", "ops.is_empty", "ops.contains", "ops.element_at_or_default", "ops.on_error_resume_next",
+    "ops.flat_map", "ops.concat_map", "ops.switch_map", "ops.flat_map_indexed", "ops.switch_map_indexed",
+    "ops.take_until", "ops.skip_until", "ops.take_with_time", "ops.skip_with_time", "ops.take_last_buffer",
+    "ops.with_latest_from", "ops.combine_latest", "ops.zip", "ops.amb", "ops.materialize", "ops.finally_action",
+    "ops.tap", "ops.as_observable", "ops.ignore_elements", "ops.timeout", "ops.buffer_with_time",
+    "ops.skip_last_with_time", "ops.take_last_with_time", "ops.take_until_with_time",
+    "ops.skip_until_with_time", "ops.single_or_default", "ops.first_or_default", "ops.last_or_default",
+    "ops.average", "ops.max_by", "ops.min_by", "ops.to_set", "ops.to_dict", "ops.find", "ops.find_index",
+    "ops.sequence_equal", "ops.observe_on", "ops.subscribe_on", "ops.time_interval", "ops.group_by",
+    "ops.window_with_count", "ops.buffer", "ops.fork_join", "ops.do", "ops.element_at",
+}
+
+
+def stage_pool(R, multicast_ok=False):
+    return [r for r in R if r.op is not None and r.name in STAGE_OK and r.pre is None and not r.stateful
+            and (r.c04 or multicast_ok) and r.src in ("num", "dup", "err", "single", "empty")
+            and not r.connectable]
+
+
+class Pipeline:
+    """a generated pipeline: source kind + stages (recipes); behaves like a Recipe"""
+
+    def __init__(self, src, stages):
+        self.src, self.stages = src, list(stages)
+        self.name = "pipeline"
+        self.id = "pipeline:" + src + ":" + ">".join(s.id for s in self.stages)
+        self.uses = tuple(sorted({u for s in self.stages for u in s.uses}))
+        self.stateful, self.connectable, self.obs, self.pre, self.post = False, False, None, None, None
+        self.c04 = self.c44 = True
+
+    def op(self, e):
+        import reactivex
+        fs = []
+        for s in self.stages:
+            f = s.op(e)
+            if s.post is not None:
+                f = (lambda f, s: (lambda x: s.post(e, f(x))))(f, s)
+            fs.append(f)
+        return reactivex.compose(*fs)
+
+    def build(self, e, which, opval):
+        return opval(e.src(self.src, which))
+
+    def to_json(self):
+        return {"src": self.src, "stages": [s.id for s in self.stages]}
+
+
+def random_pipeline(rng, pool):
+    n = rng.choice([2, 2, 3, 3, 4])
+    return Pipeline(rng.choice(["num", "num", "num", "dup", "err", "single", "empty"]),
+                    [rng.choice(pool) for _ in range(n)])
+
+
+def by_id(R):
+    return {r.id: r for r in R}
+
+
+def rebuild(R, d):
+    """recipe / pipeline from its replay description"""
+    ids = by_id(R)
+    if isinstance(d, dict):
+        return Pipeline(d["src"], [ids[i] for i in d["stages"]])
+    return ids[d]
+
+
+def shrink_pipeline(p, fails):
+    """greedy: drop stages while the failure persists"""
+    cur = p
+    changed = True
+    while changed and len(cur.stages) > 1:
+        changed = False
+        for i in range(len(cur.stages)):
+            cand = Pipeline(cur.src, cur.stages[:i] + cur.stages[i + 1:])
+            try:
+                if fails(cand):
+                    cur, changed = cand, True
+                    break
+            except Exception:
+                pass
+    return cur
+
+
+# --------------------------------------------------------------------------- translator verdict
+def table_verdict(chk, prop):
+    """Runs the translator's analysis (python) and lets Coq evaluate entry_ok_<prop> on the GENERATED
+    table; the two verdicts per row must agree (a tie of its own).  Returns dict or None."""
+    import lib
+    from translate import alloc_tr
+    try:
+        a = alloc_tr.analyse(lib.REPO)
+    except Exception as ex:       # already reported by build_and_prove as translator:alloc
+        chk.notes.append(f"translator refused the source: {type(ex).__name__}: {ex}")
+        return None
+    rows = alloc_tr.table_rows(a)
+    py_bad = [i for i, row in enumerate(rows) if not alloc_tr.row_ok(row, prop)]
+    rc, out = lib.coq_eval(prop, "rows", f"Eval vm_compute in (bad_idx entry_ok_{prop} alloc_table).\n"
+                           "Eval vm_compute in (List.length alloc_table).",
+                           "Base.Prelude Ops.Closure Gen.AllocTable")
+    coq_bad = lib.parse_nat_list(out) if rc == 0 else None
+    if coq_bad is None:
+        chk.tie_broken("generated table does not evaluate in Coq", out[-1500:])
+    elif coq_bad != py_bad:
+        chk.tie_broken(f"entry_ok_{prop}: the kernel's verdict on the generated rows differs from the "
+                       "translator's python twin", {"coq": coq_bad[:20], "python": py_bad[:20]})
+    ents = a["entries"]
+    flagged = {}
+    for i in py_bad:
+        q, st = rows[i][0], rows[i][1]
+        flagged.setdefault(q, []).append(f"{st.rel}:{st.line} {st.name} [{st.kind}] allocated at "
+                                         f"{alloc_tr.LNAME[st.alloc]}, written at {alloc_tr.LNAME[st.mut]}")
+    per_level, per_kind = {}, {}
+    for row in rows:
+        st = row[1]
+        per_level[alloc_tr.LNAME[st.alloc]] = per_level.get(alloc_tr.LNAME[st.alloc], 0) + 1
+        per_kind[st.kind] = per_kind.get(st.kind, 0) + 1
+    stats = {"public_functions_analysed": len(ents),
+             "operators": sum(1 for r in ents.values() if not r["creation"]),
+             "creation_functions": sum(1 for r in ents.values() if r["creation"]),
+             "rows": len(rows), "rows_per_allocation_level": per_level, "rows_per_kind": per_kind,
+             "multicast_family (excluded by C04)": sorted(q for q, r in ents.items() if r["multicast"]),
+             "hot_or_terminal (allowlist)": sorted(q for q, r in ents.items() if r["hot"]),
+             "benign_sites (allowlist)": sorted({f"{st.rel}:{st.name}" for row in rows for st in [row[1]]
+                                                if st.benign}),
+             "flagged_rows": flagged, "rows_checked_in_coq": len(rows) if coq_bad is not None else 0}
+    deps = {q: set(r["deps"]) for q, r in ents.items()}
+    for al, canon_name in a["aliases"].items():
+        deps[al] = {canon_name}
+    return {"flagged": flagged, "deps": deps, "stats": stats, "entries": ents, "aliases": a["aliases"]}
+
+
+def closure(ops_used, deps):
+    seen, todo = set(), list(ops_used)
+    while todo:
+        q = todo.pop()
+        if q in seen:
+            continue
+        seen.add(q)
+        todo.extend(deps.get(q, ()))
+    return seen
+
+
+def tie_table_vs_differential(chk, tv, failing, all_recipes, what):
+    """failing: list of recipes/pipelines on which the differential oracle failed.
+    Every failing case must use (transitively) an operator the table flags; every flagged operator
+    must make at least one case fail that uses it."""
+    if tv is None:
+        return
+    flagged = set(tv["flagged"]) - {q for q in tv["flagged"] if q.startswith("<module")}
+    unexplained = []
+    for r in failing:
+        if not (closure(r.uses, tv["deps"]) & flagged):
+            unexplained.append(r.id)
+    silent = []
+    for q in sorted(flagged):
+        users = [r for r in all_recipes if q in closure(r.uses, tv["deps"])]
+        if not any(r.id in {f.id for f in failing} for r in users):
+            silent.append({"operator": q, "rows": tv["flagged"][q], "cases_using_it": len(users)})
+    chk.cov["table_vs_differential"] = {
+        "operators_flagged_by_table": sorted(flagged),
+        "cases_failing_differential": sorted({r.id for r in failing})[:40],
+        "failing_cases_not_explained_by_table": unexplained[:20],
+        "flagged_operators_passing_differential": silent}
+    if unexplained:
+        chk.tie_broken(f"{what}: the differential run fails on cases in which the translator's table "
+                       "flags no operator (the table misses an allocation site?)", unexplained[:20])
+    if silent:
+        chk.tie_broken(f"{what}: the table flags operators on which no differential case fails "
+                       "(false alarm of the translator, or a case is missing)", silent)
